@@ -149,7 +149,19 @@ def c04_2(ctx):
                     if not s.issubset(ISet.of(list(tbl.keys()))):
                         raise AnalysisError("Script.parse: length width table %s is indexed with bytes %s outside its keys" % (tbl, s))
                 else:
-                    raise AnalysisError("Script.parse: width of the length field `%s` not recognised" % ast.unparse(inner.args[0]))
+                    # a width computed from the opcode byte (`1 << (byte - 76)`): evaluate it for every byte value that reaches this statement
+                    vals = s.enumerate(16) if hasattr(s, "enumerate") else None
+                    done = False
+                    if vals is not None:
+                        done = True
+                        for k in vals:
+                            w_ = Folder(ctx.repo, mod.name, env={var: k}).fold(wex)
+                            if not isinstance(w_, int):
+                                done = False
+                                break
+                            got[w_] = got.get(w_, ISet.empty()).union(ISet.point(k))
+                    if not done:
+                        raise AnalysisError("Script.parse: width of the length field `%s` not recognised" % ast.unparse(inner.args[0]))
         if isinstance(a, ast.Expr) and isinstance(a.value, ast.Call) and call_name(a.value) == "append" and a.value.args:
             arg = a.value.args[0]
             ex = expand(fn, n.id, arg, stop=(var,))
@@ -158,6 +170,33 @@ def c04_2(ctx):
             elif isinstance(ex, ast.Name) and ex.id == var:
                 opcode = opcode.union(s)
     out = []
+    # the consumed-byte counter advances by the *announced* length: a push that runs past the end of the script must leave
+    # count != length so that the raw bytes are kept (Script.raw) and re-serialised as they were
+    announced = set()
+    for n in cfg.stmts(("stmt",)):
+        a = n.ast
+        if isinstance(a, ast.Assign) and isinstance(a.targets[0], ast.Name) and isinstance(a.value, ast.Call) and call_name(a.value) == "little_endian_to_int":
+            announced.add(a.targets[0].id)
+    cnt = None
+    for t in cfg.tests():
+        r_ = rl.rel(t.ast, lambda e: isinstance(e, ast.Name), lambda e: isinstance(e, ast.Name) and e.id == "length")
+        if r_ and t.loops:
+            cnt = t.ast.left.id if isinstance(t.ast.left, ast.Name) and t.ast.left.id != "length" else (t.ast.comparators[0].id if isinstance(t.ast.comparators[0], ast.Name) else None)
+    if cnt and announced:
+        for n in cfg.stmts(("stmt",)):
+            a = n.ast
+            if isinstance(a, ast.AugAssign) and isinstance(a.target, ast.Name) and a.target.id == cnt and isinstance(a.op, ast.Add) and ra.reachable(n.id) \
+                    and not ra.at(n.id, var).intersect(ISet.range(76, 78)).is_empty() and not isinstance(a.value, ast.Constant):
+                names = {x.id for x in ast.walk(a.value) if isinstance(x, ast.Name)}
+                lens = [x for x in ast.walk(a.value) if isinstance(x, ast.Call) and call_name(x) == "len"]
+                if names & announced and not lens:
+                    out.append(ctx.ok(spec, "PUSHDATA arm advances the byte counter by the announced length (`%s`)" % ast.unparse(a), a, mod, key="count-announced:%d" % len(out)))
+                elif lens:
+                    out.append(ctx.bad(spec, "`%s` advances the byte counter by the number of bytes actually read: a PUSHDATA whose announced length runs past the end of the "
+                                             "script is no longer noticed, the raw bytes are not kept, and the script re-serialises as a shorter push (different bytes and txid)" %
+                                       ast.unparse(a), a, mod, key="count-announced"))
+                else:
+                    out.append(ctx.err(spec, "PUSHDATA arm: counter increment `%s` not recognised" % ast.unparse(a), a, mod))
     exp = {1: ISet.point(76), 2: ISet.point(77), 4: ISet.point(78)}
     for w, s in sorted(exp.items()):
         g = got.get(w, ISet.empty())
@@ -600,6 +639,32 @@ def _shape_txt(sh):
     return "[" + ", ".join(hex(x) if isinstance(x, int) else "<%d bytes>" % len(x) if isinstance(x, bytes) else repr(x) for x in sh) + "]"
 
 
+def c04_10(ctx):
+    """DOMAIN of the constructors behind the codec: every value the wire format can carry can be held -- TxOut amounts over the
+    whole 8-byte field [0, 2^64-1], TxIn sequence and index over [0, 2^32-1].  A policy bound in a constructor (MAX_MONEY)
+    makes canonically encoded transactions unparseable"""
+    out = []
+    for spec, pname, need, label in (("tx:TxOut.__init__", "amount", ISet.range(0, (1 << 64) - 1), "amount"),
+                                     ("tx:TxIn.__init__", "prev_index", ISet.range(0, (1 << 32) - 1), "previous output index")):
+        mod, fn = rl.get(ctx, spec)
+        if pname not in param_names(fn):
+            out.append(ctx.err(spec, "parameter `%s` not found" % pname, fn, mod))
+            continue
+        ra = Ranges(ctx.repo, mod, fn, {pname: ISet.top()})
+        cfg = cfg_of(fn)
+        exits = [n.id for n in cfg.returns()]
+        acc = ra.union_at(exits, pname)
+        if need.issubset(acc):
+            out.append(ctx.ok(spec, "every %s in %s reaches the end of the constructor" % (label, need.describe({})), fn, mod, key="domain:" + pname))
+        elif ra.uninterpreted:
+            out.append(ctx.err(spec, "cannot decide the accepted %s: %s" % (label, ra.uninterpreted[0][1]), fn, mod))
+        else:
+            w = need.minus(acc).witness(((1 << 64) - 1, (1 << 32) - 1, 0))
+            out.append(ctx.bad(spec, "%s = %s is refused (accepted: %s) although the wire field can carry it: a canonically encoded transaction with it cannot be "
+                                     "parsed or built" % (label, w, acc.describe({})), fn, mod, key="domain:" + pname, detail={"witness_value": str(w)}))
+    return out
+
+
 OBLIGATIONS = [
     ("C04.1", "RANGE partition", c04_1),
     ("C04.2", "RANGE partition", c04_2),
@@ -610,5 +675,6 @@ OBLIGATIONS = [
     ("C04.7", "GUARD", c04_7),
     ("C04.8", "COUNT", c04_8),
     ("C04.9", "CELLS re-typing", c04_9),
+    ("C04.10", "RANGE domain", c04_10),
 ]
 FLOORS = {"C04.1": 4, "C04.2": 5, "C04.3": 7, "C04.4": 10, "C04.5": 14, "C04.6": 5, "C04.7": 4, "C04.8": 5}
